@@ -321,6 +321,18 @@ theorem fitInt_inRange {n : Int} {w : Val} (h : fitInt n = .ok w) : w.InRange :=
     · cases h; assumption
     · obtain ⟨rfl, h2⟩ := mkDbl_ok h; exact h2
 
+/-- `fit_to_type` on a whole number beyond the LONG range: both arms of the code (`(round as i64).fit_to_type()`
+below 9.0e18, `VDouble(round)` from there on) are the DOUBLE holding that number. -/
+theorem fitInt_beyond_long (n : Int) (h : inLongRange n = false) : fitInt n = mkDbl (n : Rat) := by
+  have h1 : inIntRange n = false := by
+    cases hi : inIntRange n with
+    | false => rfl
+    | true =>
+      rw [inIntRange_iff] at hi
+      have : inLongRange n = true := by rw [inLongRange_iff]; omega
+      rw [h] at this; cases this
+  simp [fitInt, h, h1]
+
 theorem fitS_inRange {q : Rat} {w : Val} (h : fitS q = .ok w) : w.InRange := by
   unfold fitS at h
   split at h
@@ -609,6 +621,16 @@ example : vmBin binType .divide (.int 1) (.int 4) = .ok (.sgl (1 / 4)) ∧
     storeCast .sgl .int (.sgl (-5 / 2)) = .ok (.int (-3)) ∧
     storeCast .sgl .int (.sgl (65535 / 2)) = .err .overflow ∧
     storeCast .sgl .long (.sgl 2147483648) = .err .overflow := by decide +kernel
+
+/-- whole quotients beyond the 64-bit integers keep their value as DOUBLEs (the `as i64` saturation of
+`fit_to_type`, repaired in 53dda8d, would have answered 9223372036854775807): 2^70 / 1, 2^99 / 2, and from a
+SINGLE operand -/
+example : divide (.dbl (2 ^ 70)) (.int 1) = .ok (.dbl (2 ^ 70)) ∧
+    divide (.dbl (2 ^ 99)) (.int 2) = .ok (.dbl (2 ^ 98)) ∧
+    divide (.sgl (2 ^ 64)) (.sgl 1) = .ok (.dbl (2 ^ 64)) ∧
+    vmBin binType .divide (.sgl (2 ^ 64)) (.sgl 1) = .ok (.sgl (2 ^ 64)) ∧
+    divide (.dbl 9000000000000000000) (.int 1) = .ok (.dbl 9000000000000000000) ∧
+    (Val.dbl (2 ^ 100)).InRange ∧ ¬ (Val.dbl (2 ^ 101)).InRange := by decide +kernel
 
 /-- `op_result_typed`'s hypotheses hold for a non-trivial instance and its conclusion is not vacuous. -/
 example : (Val.sgl (65535 / 2)).InRange ∧ (Val.long 2147483647).InRange ∧
